@@ -56,7 +56,14 @@ Leaves ==
 BinLeaves == {Un(op, FX, Lit(v)) : op \in CmpOps, v \in LitPool}
 Crits ==
     Leaves
-    \cup (IF QueryLevel >= 1 THEN {Not(c) : c \in Leaves} ELSE {})
+    \cup (IF QueryLevel >= 1
+          THEN {Not(c) : c \in Leaves}
+               \* negations the planner cannot simply push down: chains, under And / Or
+               \cup {Not(Not(c)) : c \in BinLeaves} \cup {Not(Not(Not(c))) : c \in BinLeaves}
+               \cup {And(Not(Not(Not(a))), b) : a, b \in BinLeaves}
+               \cup {And(b, Not(Not(Not(a)))) : a, b \in BinLeaves}
+               \cup {Or(Not(Not(a)), b) : a, b \in BinLeaves}
+          ELSE {})
     \cup (IF QueryLevel >= 2
           THEN {And(a, b) : a, b \in BinLeaves} \cup {Or(a, b) : a, b \in BinLeaves}
                \cup {Not(And(a, b)) : a, b \in {Un(op, FX, Lit(v)) : op \in {"lt", "gte"}, v \in LitPool}}
